@@ -152,13 +152,13 @@ var c09Accounts = []string{
 	"liabilities:card", "assets:my bank", "расходы:еда", "expenses:café", "equity:opening-balances",
 	"assets:a_b.c&d", "Assets:Cash",
 }
-var c09AccountsNB = []string{"assets:\U0001F4B0 gold", "expenses:\U0001D11E"}
+var c09AccountsNB = []string{"assets:\U0001F4B0 gold", "expenses:\U0001D11E", "a\U0001F600b:c", "\U00010000x:y z", "fun:\U0001F600\U0001F600"}
 
 var c09Payees = []string{
 	"Shop", "Grocery Store", "Café Roma", "Landlord", "Employer Inc", "Über shop", "shop",
 	"Coffee & more", "Магазин",
 }
-var c09PayeesNB = []string{"Pizza \U0001F355", "\U0001F600 bar"}
+var c09PayeesNB = []string{"Pizza \U0001F355", "\U0001F600 bar", "\U0001D11E music \U0001D11E", "b\U0010FFFFend"}
 
 var c09Numbers = []string{"5", "12.50", "1,234.56", "0.5", "3", "100", "42.00", "7.125"}
 
@@ -613,7 +613,9 @@ func genC09Scenario(c *Ctx, r *rand.Rand) *c09Scenario {
 	}
 	names := pick(r, nameSets)
 	edges := c09Graph(r, n)
-	nb := r.IntN(6) == 0
+	// characters outside the BMP in accounts, payees and comments: the server converts rune
+	// columns to UTF-16 units at the protocol boundary, so these sessions are judged like any other
+	nb := r.IntN(3) == 0
 	o := c09Opts{nbText: nb, odd: r.IntN(4) == 0, tricky: r.IntN(3) == 0}
 	pool := c09MakePool(r, nb)
 	if nb {
@@ -890,7 +892,9 @@ func (s *c09Session) rel(p string) string {
 
 // resolvedFor reports what Server.resolvedWithPrimaryPath can choose from for the document rel:
 // the workspace's resolved journal with the root journal's path, and the journal stored for the
-// document's own URI.  The choice itself is made by the model (HL.Refs.resolvedWithPrimaryPath).
+// document's own URI.  The choice itself is made by the model (HL.Refs.resolvedWithPrimaryPath),
+// and with it the choice of the texts positions are converted with (workspace view: the buffers of
+// the open files; own tree: the requesting document's buffer, every other file from disk).
 func (s *c09Session) resolvedFor(rel string) J {
 	out := J{"ws": nil, "wsroot": "", "own": s.resolvedJ(s.srv.GetResolved(s.uri(rel))), "cur": rel}
 	if ws := s.srv.Workspace(); ws != nil {
